@@ -179,6 +179,21 @@ def handleLine (st : St) (line : String) : IO St := do
       match st.last with
       | some pre => return { st with pending := some (pre, c) }
       | none => emit st "TIE" "-" "call without pre-state"
+  | "E" =>
+    match runRd rdCall toks 1 with
+    | .error e => emit st "TIE" "-" s!"bad event line: {e}"
+    | .ok c =>
+      st := { st with cnt := { st.cnt with events := st.cnt.events + 1 } }
+      match st.expected with
+      | some (e :: rest) =>
+        if e == c then return { st with expected := some rest }
+        else
+          st ← emit st "PARSE" c.name s!"feed#{st.feedIdx}: implementation called {reprStr c}, model expected {reprStr e}"
+          return { st with expected := none }
+      | some [] =>
+        st ← emit st "PARSE" c.name s!"feed#{st.feedIdx}: implementation called {reprStr c}, model expected no further call"
+        return { st with expected := none }
+      | none => return st
   | "DISP" =>
     match runRd (do
         let n ← rdNat
